@@ -535,6 +535,25 @@ def kNearestV (argpart : List Int → Nat → List Nat) (s : ESpace) (pt : Pos) 
 def inBoundsV (s : ESpace) (p : Pos) : Except Err Bool := (bcast s.nd p).map (inBounds s.cfg.dims)
 def torusCorrectV (s : ESpace) (p : Pos) : Except Err Pos := (bcast s.nd p).map (torusCorrect s.cfg.dims)
 
+/-! ### histories whose calls carry vectors of any length (what the driver runs line by line) -/
+
+/-- what numpy makes of the vector of a call on a space with `nd` axes: the call with the broadcast vector, or no call at
+    all (`ValueError` before anything is written) -/
+def normOp (nd : Nat) : EOp → Option EOp
+  | .set a p => match bcast nd p with | .ok q => some (.set a q) | .error _ => none
+  | .iadd a v => match bcast nd v with | .ok w => some (.iadd a w) | .error _ => none
+  | .raw i p => match bcast nd p with | .ok q => some (.raw i q) | .error _ => none
+  | op => some op
+
+/-- one call with a vector of any length, as the code runs it (`agentSetV` / `agentIaddV` / `rawWriteV`) -/
+def estepV (s : ESpace) : EOp → ESpace
+  | .set a p => match agentSetV s a p with | .ok s' => s' | .error _ => s
+  | .iadd a v => match agentIaddV s a v with | .ok s' => s' | .error _ => s
+  | .raw i p => match rawWriteV s i p with | .ok s' => s' | .error _ => s
+  | op => estep s op
+
+def erunV (c : ECfg) (cap : Nat) (ops : List EOp) : ESpace := ops.foldl estepV (einit c cap)
+
 /-! ### references to `space.agent_positions` kept by the user
 `agent_positions` is re-sliced from `_agent_positions` by every add / remove, and `_agent_positions` is re-allocated
 (`np.vstack`) when it is full.  A reference `v = space.agent_positions` the user keeps is a view of rows `0 .. len` of the
